@@ -32,7 +32,8 @@ from elementpath.tdop import MultiLabel
 from elementpath.helpers import Patterns, is_xml_codepoint, node_position
 from elementpath.namespaces import get_expanded_name, split_expanded_name, \
     XPATH_FUNCTIONS_NAMESPACE
-from elementpath.datatypes import NumericProxy, QName, Date, DateTime, Time, AnyURI
+from elementpath.datatypes import NumericProxy, QName, Date, DateTime, Time, AnyURI, \
+    UntypedAtomic
 from elementpath.sequences import xlist
 from elementpath.sequence_types import is_sequence_type, match_sequence_type
 from elementpath.etree import defuse_xml
@@ -1842,6 +1843,12 @@ def evaluate__round(self: XPathFunction, context: ta.ContextType = None) \
     arg: ta.NumericType | None = self.get_argument(context)
     if arg is None:
         return []
+    elif isinstance(arg, XPathNode) and arg.is_typed and not self.parser.compatibility_mode:
+        arg = self.data_value(arg)  # the typed value of a schema-typed node
+        if isinstance(arg, UntypedAtomic):
+            arg = self.cast_to_double(arg.value)
+        elif arg is None:
+            return []
     elif isinstance(arg, XPathNode) or self.parser.compatibility_mode:
         arg = self.number_value(arg)
 
